@@ -298,9 +298,10 @@ where
                 ctx.violation(format!("{}|position-after-next-nth", name), || case(&format!("ops: {}", trace)), || format!("{} returned {:?}, expected {:?}", op, got, want));
                 break;
             }
-            if !dead {
+            {
+                // also after the position moved past the end (then nothing remains)
                 let (lo, hi) = it.size_hint();
-                let remaining = count - pos;
+                let remaining = if dead { 0 } else { count - pos };
                 if lo > remaining || hi.map(|h| h < remaining).unwrap_or(false) {
                     let kind = if lo == 0 && hi == Some(0) { "zero" } else { "wrong" };
                     ctx.violation(format!("{}|size_hint-{}", name, kind), || case(&format!("ops: {}", trace)), || format!("size_hint = ({}, {:?}) but {} items remain", lo, hi, remaining));
